@@ -120,13 +120,13 @@ func runNegotiate(seed uint64, n int, tier string, out string, replay string) {
 	cts := []string{"text/html; charset=utf-8", "application/json", "image/png", "", "application/octet-stream", "font/woff2"}
 	filters := []string{"", "", "", "json", "image|octet", "^$", "text"}
 	type pending struct {
-		resp           *cache.HTTPResponse
-		head, tail     string
-		serves         []string
-		serveRep       []interface{}
-		gun, brd       *tbl1
-		rep            map[string]interface{}
-		gunAt, brdAt   int
+		resp         *cache.HTTPResponse
+		head, tail   string
+		serves       []string
+		serveRep     []interface{}
+		gun, brd     *tbl1
+		rep          map[string]interface{}
+		gunAt, brdAt int
 	}
 	var pend []*pending
 	doServe := func(resp *cache.HTTPResponse, acc string, gun, brd *tbl1) (string, interface{}, string) {
@@ -355,10 +355,10 @@ func runNegotiate(seed uint64, n int, tier string, out string, replay string) {
 	// ---- Go-side only: large, highly compressible bodies in every upstream encoding (too big for Coq terms):
 	// fetch -> store -> serve under several Accept-Encoding values; decoded body must equal the origin's
 	bigs := map[string][]byte{
-		"20000 x 'a' (lz4 ratio ~198)":           bytes.Repeat([]byte("a"), 20000),
+		"20000 x 'a' (lz4 ratio ~198)":             bytes.Repeat([]byte("a"), 20000),
 		"'hello world, ' x 10000 (lz4 ratio ~239)": bytes.Repeat([]byte("hello world, "), 10000),
-		"300 KiB zeros (lz4 ratio ~254)":          make([]byte, 300<<10),
-		"64-byte pattern x 3000":                  bytes.Repeat(rnd.Bytes(64), 3000),
+		"300 KiB zeros (lz4 ratio ~254)":           make([]byte, 300<<10),
+		"64-byte pattern x 3000":                   bytes.Repeat(rnd.Bytes(64), 3000),
 	}
 	for name, orig := range bigs {
 		for _, enc := range []string{"", "gzip", "br", "lz4", "snz", "zst"} {
